@@ -167,6 +167,30 @@ def R1_R4_reads(ctx):
            what='the account handed to the EVM must be the value of the recorded MV entry, or the backing store value when Storage was recorded')
 
 
+def R6_blockers_are_estimates(ctx):
+    """a reader registers a multi-version writer as a blocker only when that writer's entry IS an estimate"""
+    n = 0
+    bad = []
+    for name in ('basic', 'code_by_address', 'storage'):
+        f = idb_fn(ctx, name)
+        for p in feasible(f.paths()):
+            for i, e in enumerate(p.events):
+                if not (e.kind == 'call' and norm_callee(e.d['callee']).endswith('HashSet::insert') and e.d['args'] and mentions_field(e.d['args'][0], 'blocking_txs')):
+                    continue
+                en = entry_of(e.d['args'][1])
+                if en is None:
+                    continue    # a blocker that is not a multi-version entry (the beneficiary history names its own): B6
+                n += 1
+                est = [a for a in p.events[:i] if a.kind == 'atom' and bool_fact(a) and is_field(strip(bool_fact(a)[0]), 'MemoryEntry.estimate') and mentions(bool_fact(a)[0], en)]
+                if not est or est[-1] is None or bool_fact(est[-1])[1] is not True:
+                    bad.append((f, e))
+    ctx.count('R6.blocker-registrations', n)
+    ctx.ob('R6', 'incarnation_db::IncarnationDb', 'blocker-only-when-entry-is-an-estimate', n >= 4 and not bad,
+           '; '.join(site(f, e) for f, e in bad[:3]) + f' registrations seen on paths={n}',
+           what='blocking_txs.insert(writer) only on a path where that entry\'s estimate flag was read true: an incarnation that reports a blocker is published as an estimate and parked; '
+                'registering every writer parks every dependent transaction behind writers that will never run again')
+
+
 def D3_storage_table(ctx):
     f = idb_fn(ctx, 'storage')
     bad = []
